@@ -556,7 +556,11 @@ SKELETONS = [
     ("signal-hook-registry/src/lib.rs", "handler", [
         ("fallback.read", r"\.race_fallback\s*\.read\s*\("), ("data.read", r"\.data\s*\.read\s*\("),
         ("data.write", r"\.data\s*\.write\s*\("), ("fallback.write", r"\.race_fallback\s*\.write\s*\("),
-        ("prev.execute", r"\.execute\s*\("), ("action", r"\baction\s*\(\s*info")]),
+        ("prev.execute", r"\.execute\s*\("), ("action", r"\baction\s*\(\s*info"),
+        # the one thing it does besides: a NULL `info` ends the process with write(2) + abort - through libc, nothing
+        # of std that could lock, allocate or panic
+        ("null.write", r"libc::write\s*\(\s*2\s*,"), ("null.abort", r"libc::abort\s*\(\s*\)"),
+        ("std.io", r"io::stderr|io::stdout|eprintln!|println!|write_all|format!|panic!\s*\(|\.lock\s*\(\s*\)|\.expect\s*\(")]),
     # the chained call: the special dispositions are excluded first, whatever the flags say; then the flags
     # choose the calling convention
     ("signal-hook-registry/src/lib.rs", "execute#1", [
